@@ -1307,7 +1307,7 @@ fn gen(rng: &mut Rng, n: usize) -> Vec<Case> {
 }
 
 fn main() {
-    main_with(Harness { gen, imp, prop, git: None, deadline: std::time::Duration::from_secs(20) });
+    main_with(Harness { gen, imp, prop, git: None, deadline: std::time::Duration::from_secs(300) });
 }
 
 #[allow(dead_code)]
